@@ -1,25 +1,65 @@
-// c02 (exploration draft)
+// c02: search filters select exactly the matching events.
+//
+// Two kinds of work:
+//
+//  (A) direct drive, in process: the exported comparison entry points of the real code
+//      (CreateDtypeEnclosure, ApplySearchToExpressionFilterSimpleCsg = filterOpOnDataType /
+//      fopOnNumber / compareNumberDte / fopOnString, AlmostEquals, TimeRange.CheckInRange /
+//      CheckRangeOverLap / AreTimesFullyEnclosed, IsSubWordPresent, SPLToRegex + regexp) on
+//      the ENUMERATED matrix  stored value x literal x operator  over a boundary pool; the
+//      observations go to Coq case files and must equal the model (Dte.v, Filter.v).
+//
+//  (B) end to end, one worker process per scenario (fresh data directory): datasets with an
+//      integer, a float, a mixed int/float, a text, a numeric-string, a bool and a mixed
+//      text/number column (values absent in some events), two block layouts; every filter is
+//      rendered to SPL as a search clause and, for numeric comparisons, as `| where`; the
+//      returned id sets are compared (a) with the specification evaluated in Go from the
+//      property text (oracle -> VIOLATION / KNOWN-FINDING classes) and (b) in Coq with
+//      impl_select / where_cmp of the model.
+//
+// Known-defect classes are generated in their own streams (decimal literal vs integer values,
+// float equality within 1e-4, != / NOT on absent or differently typed values, integer
+// literals outside int64, numbers stored as text next to text values, `where` on integers
+// above 2^53, bool literals); the main stream stays clear of them, so anything else is
+// reported as a violation.
 package main
 
 import (
 	"context"
 	"encoding/json"
 	"fmt"
+	"math"
+	"math/big"
 	"os"
+	"os/exec"
+	"path/filepath"
+	"regexp"
 	"sort"
+	"strconv"
 	"strings"
+	"sync"
 	"time"
 
 	"github.com/siglens/siglens/pkg/ast/pipesearch"
+	dtu "github.com/siglens/siglens/pkg/common/dtypeutils"
+	sregex "github.com/siglens/siglens/pkg/regex"
 	"github.com/siglens/siglens/pkg/config"
 	eswriter "github.com/siglens/siglens/pkg/es/writer"
 	"github.com/siglens/siglens/pkg/segment/memory/limit"
 	"github.com/siglens/siglens/pkg/segment/query"
+	sutils "github.com/siglens/siglens/pkg/segment/utils"
 	"github.com/siglens/siglens/pkg/segment/writer"
 	serverutils "github.com/siglens/siglens/pkg/server/utils"
+	putils "github.com/siglens/siglens/pkg/utils"
 	vtable "github.com/siglens/siglens/pkg/virtualtable"
 	log "github.com/sirupsen/logrus"
+
+	"verifharness/vhlib"
 )
+
+// =====================================================================================
+// worker: runs the real system on one scenario
+// =====================================================================================
 
 type Query struct {
 	Text  string `json:"q"`
@@ -111,7 +151,7 @@ func runQuery(q Query) QObs {
 	select {
 	case r := <-ch:
 		return r
-	case <-time.After(20 * time.Second):
+	case <-time.After(30 * time.Second):
 		return QObs{Err: "timeout"}
 	}
 }
@@ -161,9 +201,1617 @@ func workerMain(dir, scriptPath, outPath string) {
 	os.Exit(0)
 }
 
+func runScenario(dir string, sc *Script) ([]QObs, error) {
+	_ = os.RemoveAll(dir)
+	data := filepath.Join(dir, "data")
+	if err := os.MkdirAll(data, 0o755); err != nil {
+		return nil, err
+	}
+	sp := filepath.Join(dir, "script.json")
+	op := filepath.Join(dir, "obs.json")
+	b, _ := json.Marshal(sc)
+	_ = os.WriteFile(sp, b, 0o644)
+	ctx, cancel := context.WithTimeout(context.Background(), 600*time.Second)
+	defer cancel()
+	cmd := exec.CommandContext(ctx, os.Args[0], "worker", data, sp, op)
+	out, err := cmd.CombinedOutput()
+	if err != nil {
+		tail := string(out)
+		if len(tail) > 600 {
+			tail = tail[len(tail)-600:]
+		}
+		return nil, fmt.Errorf("worker: %v: %s", err, tail)
+	}
+	ob, err := os.ReadFile(op)
+	if err != nil {
+		return nil, err
+	}
+	var o []QObs
+	if err := json.Unmarshal(ob, &o); err != nil || len(o) != len(sc.Queries) {
+		return nil, fmt.Errorf("worker: bad observation file")
+	}
+	_ = os.RemoveAll(data)
+	return o, nil
+}
+
+// =====================================================================================
+// values, literals, specification (written from the property text, independent of the code)
+// =====================================================================================
+
+const (
+	kInt = iota
+	kUint
+	kFloat
+	kStr
+	kBool
+	kAbsent
+)
+
+type Val struct {
+	K    int
+	R    *big.Rat // numeric kinds: exact value
+	S    string
+	B    bool
+	JSON string // how the value is written in the ingested document ("" = field absent)
+}
+
+func ratOfText(s string) *big.Rat {
+	r, ok := new(big.Rat).SetString(s)
+	if !ok {
+		panic("bad number text " + s)
+	}
+	return r
+}
+func vInt(text string) Val   { return Val{K: kInt, R: ratOfText(text), JSON: text} }
+func vFloat(text string) Val { // text must be exactly representable? no: the stored value is the float64
+	f, err := strconv.ParseFloat(text, 64)
+	if err != nil {
+		panic(err)
+	}
+	return Val{K: kFloat, R: new(big.Rat).SetFloat64(f), JSON: text}
+}
+func vStr(s string) Val {
+	b, _ := json.Marshal(s)
+	return Val{K: kStr, S: s, JSON: string(b)}
+}
+func vBool(b bool) Val { return Val{K: kBool, B: b, JSON: strconv.FormatBool(b)} }
+
+var vAbsent = Val{K: kAbsent}
+
+func (v Val) isNum() bool { return v.K == kInt || v.K == kUint || v.K == kFloat }
+
+func coqZ(z *big.Int) string {
+	if z.Sign() < 0 {
+		return "(" + z.String() + ")"
+	}
+	return z.String()
+}
+func coqQ(r *big.Rat) string {
+	return "(" + coqZ(r.Num()) + " # " + r.Denom().String() + ")"
+}
+func (v Val) coq() string {
+	switch v.K {
+	case kInt:
+		return "SInt " + coqZ(v.R.Num())
+	case kUint:
+		return "SUint " + coqZ(v.R.Num())
+	case kFloat:
+		return "SFloat " + coqQ(v.R)
+	case kStr:
+		return "SStr " + vhlib.CoqStr(v.S)
+	case kBool:
+		return "SBool " + vhlib.CoqBool(v.B)
+	}
+	return "SAbsent"
+}
+
+// numeric literal of the search clause
+type NumLit struct {
+	Text    string
+	IsInt   bool     // accepted by ParseInt ('-') / ParseUint (no sign): NLInt
+	R       *big.Rat // exact value of the text
+	Inexact bool     // not NLInt and float64(text) != text: the model (exact rationals) does not apply
+	Dot     bool     // written with a decimal point
+}
+
+func mkNumLit(text string) NumLit {
+	l := NumLit{Text: text, R: ratOfText(text), Dot: strings.Contains(text, ".")}
+	if text[0] == '-' {
+		if _, err := strconv.ParseInt(text, 10, 64); err == nil {
+			l.IsInt = true
+		}
+	} else if _, err := strconv.ParseUint(text, 10, 64); err == nil {
+		l.IsInt = true
+	}
+	if !l.IsInt {
+		// a decimal literal denotes the float64 nearest to its text (as for stored decimals)
+		f, err := strconv.ParseFloat(text, 64)
+		if err != nil {
+			panic(err)
+		}
+		l.R = new(big.Rat).SetFloat64(f)
+	}
+	return l
+}
+func (l NumLit) coq() string {
+	if l.IsInt {
+		return "NLInt " + coqZ(l.R.Num())
+	}
+	return "NLDec " + coqQ(l.R)
+}
+
+type Lit struct {
+	IsNum bool
+	N     NumLit
+	Pat   string // text literal as written in the query (original case), '*' = wildcard
+}
+
+func (l Lit) coq() string {
+	if l.IsNum {
+		return "LNum (" + l.N.coq() + ")"
+	}
+	return "LStr " + vhlib.CoqStr(strings.ToLower(l.Pat))
+}
+
+var ops = []string{"=", "!=", "<", "<=", ">", ">="}
+var opCoq = map[string]string{"=": "Eq", "!=": "Ne", "<": "Lt", "<=": "Le", ">": "Gt", ">=": "Ge"}
+var opFop = map[string]sutils.FilterOperator{"=": sutils.Equals, "!=": sutils.NotEquals, "<": sutils.LessThan,
+	"<=": sutils.LessThanOrEqualTo, ">": sutils.GreaterThan, ">=": sutils.GreaterThanOrEqualTo}
+
+func cmpRat(op string, a, b *big.Rat) bool {
+	c := a.Cmp(b)
+	switch op {
+	case "=":
+		return c == 0
+	case "!=":
+		return c != 0
+	case "<":
+		return c < 0
+	case "<=":
+		return c <= 0
+	case ">":
+		return c > 0
+	case ">=":
+		return c >= 0
+	}
+	panic("op")
+}
+
+func lowerASCII(s string) string {
+	b := []byte(s)
+	for i, c := range b {
+		if c >= 'A' && c <= 'Z' {
+			b[i] = c + 32
+		}
+	}
+	return string(b)
+}
+
+// glob: '*' matches any sequence of characters (including none), everything else itself,
+// case-insensitively; the whole value must match
+func globMatch(pat, s string) bool {
+	p, t := lowerASCII(pat), lowerASCII(s)
+	var rec func(i, j int) bool
+	rec = func(i, j int) bool {
+		if i == len(p) {
+			return j == len(t)
+		}
+		if p[i] == '*' {
+			for k := j; k <= len(t); k++ {
+				if rec(i+1, k) {
+					return true
+				}
+			}
+			return false
+		}
+		return j < len(t) && p[i] == t[j] && rec(i+1, j+1)
+	}
+	return rec(0, 0)
+}
+
+// a word or phrase occurs in a text value delimited by spaces or the ends of the value
+func wordOccurs(w, s string) bool {
+	w, s = lowerASCII(w), lowerASCII(s)
+	for i := 0; i+len(w) <= len(s); i++ {
+		if s[i:i+len(w)] == w && (i == 0 || s[i-1] == ' ') && (i+len(w) == len(s) || s[i+len(w)] == ' ') {
+			return true
+		}
+	}
+	return false
+}
+
+// spec_cmp: the property text
+func specCmp(op string, v Val, l Lit) bool {
+	switch {
+	case v.K == kAbsent:
+		return false
+	case v.isNum() && l.IsNum:
+		return cmpRat(op, v.R, l.N.R)
+	case v.K == kStr && !l.IsNum:
+		m := globMatch(l.Pat, v.S)
+		if op == "=" {
+			return m
+		}
+		if op == "!=" {
+			return !m
+		}
+		return false
+	default: // present, of another kind: different
+		return op == "!="
+	}
+}
+
+// ---------- expressions ----------
+type Expr struct {
+	Kind  string // cmp, term, and, or, not
+	Col   string
+	Op    string
+	L     Lit
+	Word  string
+	A, B  *Expr
+}
+
+var colNum = map[string]int{"ci": 1, "cf": 2, "cm": 3, "cs": 4, "cns": 5, "cb": 6, "cx": 7}
+
+type Event struct {
+	ID  int
+	TS  uint64
+	F   map[string]Val // as ingested
+	St  map[string]Val // as stored after block type consolidation (filled per layout)
+}
+
+func specEval(e *Expr, ev *Event) bool {
+	switch e.Kind {
+	case "cmp":
+		v, ok := ev.F[e.Col]
+		if !ok {
+			v = vAbsent
+		}
+		return specCmp(e.Op, v, e.L)
+	case "term":
+		for _, v := range ev.F {
+			if v.K == kStr && wordOccurs(e.Word, v.S) {
+				return true
+			}
+		}
+		return false
+	case "and":
+		return specEval(e.A, ev) && specEval(e.B, ev)
+	case "or":
+		return specEval(e.A, ev) || specEval(e.B, ev)
+	case "not":
+		return !specEval(e.A, ev)
+	}
+	panic("kind")
+}
+
+var numLike = regexp.MustCompile(`^[-+]?[0-9]*\.?[0-9]+$`)
+
+func quoteIfNeeded(s string) string {
+	if strings.ContainsAny(s, " ") || numLike.MatchString(s) || s == "true" || s == "false" {
+		return "\"" + s + "\""
+	}
+	return s
+}
+
+// search-clause rendering
+func (e *Expr) spl() string {
+	switch e.Kind {
+	case "cmp":
+		if e.L.IsNum {
+			return e.Col + e.Op + e.L.N.Text
+		}
+		return e.Col + e.Op + quoteIfNeeded(e.L.Pat)
+	case "term":
+		return quoteIfNeeded(e.Word)
+	case "and":
+		return "(" + e.A.spl() + " AND " + e.B.spl() + ")"
+	case "or":
+		return "(" + e.A.spl() + " OR " + e.B.spl() + ")"
+	case "not":
+		return "NOT (" + e.A.spl() + ")"
+	}
+	panic("kind")
+}
+
+func (e *Expr) coq() string {
+	switch e.Kind {
+	case "cmp":
+		return fmt.Sprintf("EAtom (ACmp %d %s (%s) true)", colNum[e.Col], opCoq[e.Op], e.L.coq())
+	case "term":
+		return "EAtom (ATerm " + vhlib.CoqStr(lowerASCII(e.Word)) + " false)"
+	case "and":
+		return "EAnd (" + e.A.coq() + ") (" + e.B.coq() + ")"
+	case "or":
+		return "EOr (" + e.A.coq() + ") (" + e.B.coq() + ")"
+	case "not":
+		return "ENot (" + e.A.coq() + ")"
+	}
+	panic("kind")
+}
+
+func cmpE(col, op string, l Lit) *Expr { return &Expr{Kind: "cmp", Col: col, Op: op, L: l} }
+func numL(text string) Lit             { return Lit{IsNum: true, N: mkNumLit(text)} }
+func strL(p string) Lit                { return Lit{Pat: p} }
+
+// =====================================================================================
+// pools
+// =====================================================================================
+
+var numLitTexts = []string{
+	"0", "1", "-1", "2", "-2", "3", "7", "007", "100", "-0", "+5", "5",
+	"2.5", "-2.5", "5.0", "0.0", "2.50", "0.5", "7.5", "3.0",
+	"1.00001", "0.99999", "1.0", "0.00001", "-0.00001", "1.0002",
+	"9007199254740992", "9007199254740993", "-9007199254740993",
+	"9223372036854775807", "-9223372036854775808",
+	"9223372036854775808", "18446744073709551615", "18446744073709551616", "-9223372036854775809",
+}
+
+var intColTexts = []string{"0", "1", "-1", "2", "-2", "3", "5", "7", "100",
+	"9007199254740992", "9007199254740993", "-9007199254740993", "9223372036854775807", "-9223372036854775808"}
+var floatColTexts = []string{"2.5", "-2.5", "1.00001", "0.99999", "1.0", "0.00001", "-0.00001", "7.5", "3.0", "0.5", "0.0",
+	"9007199254740992.0", "-1000000000000000.0", "1000000000000000.0"}
+var mixColTexts = []string{"2", "3", "-2", "2.5", "-2.5", "7", "7.5", "0", "1.00001", "5", "-1000000.5", "1000000.5"}
+var textVals = []string{"Hello World", "hello", "HELLO there", "foo-bar", "Abc", "abc def ghi", "x", "say hello world now",
+	"zebra", "Zeb", "a  b", "end hello", "007", "helloworld"}
+var numStrVals = []string{"007", "7", "7.0", "12", "-3", "2.5", "abc7"}
+var textPats = []string{"hello", "HELLO", "Hello World", "hello world", "abc", "hel*", "*world", "*llo*", "h*o", "*", "abc*ghi",
+	"zeb", "zebra*", "x", "nomatch", "a  b", "h*l*o*", "foo-bar", "foo*", "*bar", "007", "hello*world"}
+var termWords = []string{"hello", "HELLO", "world", "hello world", "Hello World", "abc", "def", "ghi", "def ghi", "abc ghi",
+	"zebra", "zeb", "x", "b", "a", "nomatch", "foo", "foo-bar", "now", "say hello", "end", "helloworld", "there"}
+
+// =====================================================================================
+// (A) direct drive
+// =====================================================================================
+
+func encRec(v Val, variant int) []byte {
+	switch v.K {
+	case kInt:
+		z := v.R.Num().Int64()
+		if variant == 1 && z >= 0 && z <= 127 { // negative INT8 records are read without sign extension (never written by the ingest path; see notes)
+			return []byte{sutils.VALTYPE_ENC_INT8[0], byte(int8(z))}
+		}
+		if variant == 1 && z >= -32768 && z <= 32767 {
+			b := make([]byte, 3)
+			b[0] = sutils.VALTYPE_ENC_INT16[0]
+			putils.Int16ToBytesLittleEndianInplace(int16(z), b[1:])
+			return b
+		}
+		if variant == 2 && z >= -2147483648 && z <= 2147483647 {
+			b := make([]byte, 5)
+			b[0] = sutils.VALTYPE_ENC_INT32[0]
+			putils.Int32ToBytesLittleEndianInplace(int32(z), b[1:])
+			return b
+		}
+		b := make([]byte, 9)
+		b[0] = sutils.VALTYPE_ENC_INT64[0]
+		putils.Int64ToBytesLittleEndianInplace(z, b[1:])
+		return b
+	case kUint:
+		u := v.R.Num().Uint64()
+		if variant == 1 && u <= 255 {
+			return []byte{sutils.VALTYPE_ENC_UINT8[0], byte(u)}
+		}
+		if variant == 2 && u <= 65535 {
+			b := make([]byte, 3)
+			b[0] = sutils.VALTYPE_ENC_UINT16[0]
+			putils.Uint16ToBytesLittleEndianInplace(uint16(u), b[1:])
+			return b
+		}
+		b := make([]byte, 9)
+		b[0] = sutils.VALTYPE_ENC_UINT64[0]
+		putils.Uint64ToBytesLittleEndianInplace(u, b[1:])
+		return b
+	case kFloat:
+		f, _ := v.R.Float64()
+		b := make([]byte, 9)
+		b[0] = sutils.VALTYPE_ENC_FLOAT64[0]
+		putils.Float64ToBytesLittleEndianInplace(f, b[1:])
+		return b
+	case kStr:
+		b := make([]byte, 3+len(v.S))
+		b[0] = sutils.VALTYPE_ENC_SMALL_STRING[0]
+		putils.Uint16ToBytesLittleEndianInplace(uint16(len(v.S)), b[1:])
+		copy(b[3:], v.S)
+		return b
+	case kBool:
+		x := byte(0)
+		if v.B {
+			x = 1
+		}
+		return []byte{sutils.VALTYPE_ENC_BOOL[0], x}
+	}
+	return []byte{sutils.VALTYPE_ENC_BACKFILL[0]}
+}
+
+// the enclosure exactly as the SPL search path builds it
+func mkDte(l Lit, ci bool) *sutils.DtypeEnclosure {
+	if l.IsNum {
+		d, err := sutils.CreateDtypeEnclosure(json.Number(l.N.Text), 0)
+		if err != nil {
+			panic(err)
+		}
+		return d
+	}
+	val := l.Pat
+	if ci {
+		val = strings.ToLower(val)
+	}
+	d, err := sutils.CreateDtypeEnclosure(val, 0)
+	if err != nil {
+		panic(err)
+	}
+	d.UpdateRegexp(ci, false)
+	d.AddStringAsByteSlice() // SearchExpression.GetQueryInfo
+	return d
+}
+
+func callCmp(d *sutils.DtypeEnclosure, op string, rec []byte, ci bool) (res bool, fail string) {
+	defer func() {
+		if r := recover(); r != nil {
+			fail = fmt.Sprintf("panic: %v", r)
+		}
+	}()
+	holder := &sutils.DtypeEnclosure{}
+	r, _ := writer.ApplySearchToExpressionFilterSimpleCsg(d, opFop[op], rec, d.IsRegex(), holder, ci)
+	return r, ""
+}
+
+func directDrive(cfg vhlib.Config, sum *vhlib.Summary) {
+	dir := filepath.Join(cfg.Out, "cases")
+	_ = os.MkdirAll(dir, 0o755)
+	imports := "From SigM Require Import Base Dte Filter FilterCheck.\nFrom Coq Require Import QArith.\nOpen Scope Z_scope.\n"
+
+	// ---- literal enclosures ----
+	var lits []Lit
+	{
+		var items []string
+		for _, t := range numLitTexts {
+			l := numL(t)
+			lits = append(lits, l)
+			d := mkDte(l, true)
+			kind := 0
+			switch d.Dtype {
+			case sutils.SS_DT_SIGNED_NUM:
+				kind = 1
+			case sutils.SS_DT_UNSIGNED_NUM:
+				kind = 2
+			case sutils.SS_DT_FLOAT:
+				kind = 3
+			}
+			sum.Eval("dte/"+t, true)
+			sum.Count("direct/enclosure")
+			if l.N.Inexact {
+				sum.Count("direct/enclosure_skipped_float_rounding")
+				continue
+			}
+			if math.IsInf(d.FloatVal, 0) || math.IsNaN(d.FloatVal) {
+				continue
+			}
+			fl := new(big.Rat).SetFloat64(d.FloatVal)
+			if l.N.IsInt && fl.Cmp(l.N.R) != 0 {
+				// integer literal beyond 2^53: FloatVal is rounded; the integer views are still compared
+				fl = l.N.R
+				sum.Count("direct/enclosure_float_view_rounded")
+			}
+			items = append(items, fmt.Sprintf("(%s, (%d%%N, %s, %s), %s)", l.N.coq(), kind,
+				coqZ(big.NewInt(d.SignedVal)), new(big.Int).SetUint64(d.UnsignedVal).String(), coqQ(fl)))
+		}
+		sum.WriteCaseFile(dir, "dte", imports, "Open Scope Z_scope.\nDefinition cases : list (numlit * (N * Z * Z) * Q) := "+vhlib.CoqListNL(items)+".\n", "check_dte cases", len(items))
+	}
+	for _, p := range textPats {
+		lits = append(lits, strL(p))
+	}
+
+	// ---- stored pool ----
+	var stored []Val
+	for _, t := range intColTexts {
+		stored = append(stored, vInt(t))
+	}
+	for _, t := range []string{"0", "1", "5", "255", "65535", "9223372036854775808", "18446744073709551615"} {
+		v := vInt(t)
+		v.K = kUint
+		stored = append(stored, v)
+	}
+	for _, t := range floatColTexts {
+		stored = append(stored, vFloat(t))
+	}
+	for _, t := range []string{"2.0", "5.0", "-2.0", "1.0001", "1.00011", "-9223372036854775808.0"} {
+		stored = append(stored, vFloat(t))
+	}
+	for _, s := range textVals {
+		stored = append(stored, vStr(s))
+	}
+	for _, s := range []string{"", "7", "2.5", "a\nb", "A*b", "hello\nworld"} {
+		stored = append(stored, vStr(s))
+	}
+	stored = append(stored, vBool(true), vBool(false), vAbsent)
+
+	// ---- the matrix stored x literal x operator (x case flag for text) ----
+	var items []string
+	shard := 0
+	nCmp := 0
+	flush := func() {
+		if len(items) == 0 {
+			return
+		}
+		sum.WriteCaseFile(dir, fmt.Sprintf("cmp_%02d", shard), imports,
+			"Definition cases : list (bool * stored * literal * list bool) := "+vhlib.CoqListNL(items)+".\n", "check_cmp6 cases", 6*len(items))
+		shard++
+		items = nil
+	}
+	for _, l := range lits {
+		if l.IsNum && l.N.Inexact {
+			continue
+		}
+		cis := []bool{true}
+		if !l.IsNum {
+			cis = []bool{true, false}
+		}
+		for _, ci := range cis {
+			d := mkDte(l, ci)
+			for si, st := range stored {
+				if !l.IsNum && strings.Contains(l.Pat, "*") && st.isNum() {
+					sum.Count("direct/skipped_wildcard_vs_number_not_modelled")
+					continue
+				}
+				if l.IsNum && l.N.IsInt && st.K == kFloat && new(big.Rat).SetFloat64(ratF(l.N.R)).Cmp(l.N.R) != 0 {
+					sum.Count("direct/skipped_float_rounding_of_integer_literal")
+					continue
+				}
+				rec := encRec(st, si%3)
+				var obs []string
+				bad := false
+				for _, op := range ops {
+					res, fail := callCmp(d, op, rec, ci)
+					if fail != "" {
+						sum.Fail("comparison_panics", fail, map[string]interface{}{"stored": st.JSON, "literal": l, "op": op})
+						bad = true
+						break
+					}
+					sum.Eval(fmt.Sprintf("cmp/%d/%v/%s/%v", si, l, op, ci), true)
+					sum.Count("direct/cmp/" + kindName(st.K) + "_vs_" + litKind(l))
+					obs = append(obs, vhlib.CoqBool(res))
+					nCmp++
+				}
+				if bad {
+					continue
+				}
+				lc := l.coq()
+				if !l.IsNum && !ci {
+					lc = "LStr " + vhlib.CoqStr(l.Pat)
+				}
+				items = append(items, fmt.Sprintf("(%s, %s, %s, %s)", vhlib.CoqBool(ci), st.coq(), lc, vhlib.CoqList(obs)))
+				if len(items) >= 1200 {
+					flush()
+				}
+			}
+		}
+	}
+	flush()
+	_ = nCmp
+
+	// ---- AlmostEquals ----
+	{
+		var it []string
+		fl := []string{"1.0", "1.00001", "0.99999", "1.0002", "0.9998", "2.5", "-2.5", "0.0", "0.00001", "-0.00001", "0.00005", "-0.00005",
+			"1000000.5", "1000000.50001", "9007199254740992.0", "1.00011", "0.00011"}
+		for _, a := range fl {
+			for _, b := range fl {
+				x, _ := strconv.ParseFloat(a, 64)
+				y, _ := strconv.ParseFloat(b, 64)
+				it = append(it, fmt.Sprintf("(%s, %s, %s)", coqQ(new(big.Rat).SetFloat64(x)), coqQ(new(big.Rat).SetFloat64(y)), vhlib.CoqBool(dtu.AlmostEquals(x, y))))
+				sum.Eval("almost/"+a+"/"+b, true)
+				sum.Count("direct/almost_equals")
+			}
+		}
+		sum.WriteCaseFile(dir, "almost", imports, "Open Scope Z_scope.\nDefinition cases : list (Q * Q * bool) := "+vhlib.CoqListNL(it)+".\n", "check_almost cases", len(it))
+	}
+
+	// ---- time range ----
+	{
+		T := uint64(1700000000000)
+		pool := []uint64{0, 1, T - 1, T, T + 1, T + 1000, math.MaxUint64}
+		var it []string
+		shardT := 0
+		flushT := func() {
+			sum.WriteCaseFile(dir, fmt.Sprintf("time_%02d", shardT), imports,
+				"Open Scope Z_scope.\nDefinition cases : list (Z * Z * Z * Z * (bool * bool * bool)) := "+vhlib.CoqListNL(it)+".\n", "check_time cases", len(it))
+			shardT++
+			it = nil
+		}
+		for _, s := range pool {
+			for _, e := range pool {
+				tr := dtu.TimeRange{StartEpochMs: s, EndEpochMs: e}
+				for _, a := range pool {
+					for _, b := range pool {
+						it = append(it, fmt.Sprintf("(%d, %d, %d, %d, (%s, %s, %s))", s, e, a, b,
+							vhlib.CoqBool(tr.CheckInRange(a)), vhlib.CoqBool(tr.CheckRangeOverLap(a, b)), vhlib.CoqBool(tr.AreTimesFullyEnclosed(a, b))))
+						sum.Eval(fmt.Sprintf("time/%d/%d/%d/%d", s, e, a, b), true)
+						sum.Count("direct/time_range")
+						// oracle from the property text: in range iff start <= ts <= end; overlap iff a common instant exists
+						if tr.CheckInRange(a) != (s <= a && a <= e) {
+							sum.Fail("time_range_boundary", fmt.Sprintf("CheckInRange(%d) on [%d,%d]", a, s, e), []uint64{s, e, a})
+						}
+						if s <= e && a <= b {
+							want := a <= e && b >= s
+							if tr.CheckRangeOverLap(a, b) != want {
+								sum.Fail("time_range_boundary", fmt.Sprintf("CheckRangeOverLap(%d,%d) on [%d,%d] = %v", a, b, s, e, !want), []uint64{s, e, a, b})
+							}
+						}
+						if len(it) >= 3500 {
+							flushT()
+						}
+					}
+				}
+			}
+		}
+		flushT()
+	}
+
+	// ---- IsSubWordPresent ----
+	{
+		var it []string
+		hays := append(append([]string{}, textVals...), "", " ", "a", "hello ", " hello", "hello  world", "xhello", "hellox", "a b c", "ab")
+		needles := append(append([]string{}, termWords...), "", " ", "hello ", "a b", "c", "ab", "abc def ghi")
+		for _, h := range hays {
+			for _, n := range needles {
+				for _, ci := range []bool{true, false} {
+					nn := n
+					if ci {
+						nn = strings.ToLower(n)
+					}
+					res := putils.IsSubWordPresent([]byte(h), []byte(nn), ci)
+					it = append(it, fmt.Sprintf("(%s, %s, %s, %s)", vhlib.CoqBool(ci), vhlib.CoqStr(h), vhlib.CoqStr(nn), vhlib.CoqBool(res)))
+					sum.Eval("subword/"+h+"/"+n+fmt.Sprint(ci), true)
+					sum.Count("direct/is_subword")
+					if ci && n != "" && strings.TrimSpace(n) == n && res != wordOccurs(n, h) {
+						sum.Fail("filter_false_negative", fmt.Sprintf("IsSubWordPresent(%q,%q)=%v", h, nn, res), []string{h, nn})
+					}
+				}
+			}
+		}
+		sum.WriteCaseFile(dir, "subword", imports, "Definition cases : list (bool * bytes * bytes * bool) := "+vhlib.CoqListNL(it)+".\n", "check_subword cases", len(it))
+	}
+
+	// ---- SPLToRegex source and the compiled regexp ----
+	{
+		var src, wild []string
+		pats := append(append([]string{}, textPats...), "a.b*", "a+b", "(x)*", "[q]", "a\\b*", "**", "*a*b*", "$^*", "a|b*", "{1}*?")
+		vals := append(append([]string{}, textVals...), "", "a.b", "axb", "a+b", "(x)", "[q]z", "a\\bc", "a\nb", "hello\nworld", "ab", "a|b", "{1}?")
+		for _, p := range pats {
+			for _, ci := range []bool{true, false} {
+				pp := p
+				if ci {
+					pp = strings.ToLower(p)
+				}
+				s := dtu.SPLToRegex(pp, ci, false)
+				src = append(src, fmt.Sprintf("(%s, %s, %s)", vhlib.CoqBool(ci), vhlib.CoqStr(pp), vhlib.CoqStr(s)))
+				sum.Count("direct/regex_source")
+				re, err := sregex.New(s) // what DtypeEnclosure.SetRegexp keeps: fast path or Go regexp
+				if err != nil {
+					sum.HarnessError("generated regex does not compile: " + s)
+					continue
+				}
+				for _, v := range vals {
+					wild = append(wild, fmt.Sprintf("(%s, %s, %s, %s)", vhlib.CoqBool(ci), vhlib.CoqStr(pp), vhlib.CoqStr(v), vhlib.CoqBool(re.Match([]byte(v)))))
+					sum.Eval("wild/"+p+"/"+v+fmt.Sprint(ci), true)
+					sum.Count("direct/regex_match")
+				}
+			}
+		}
+		sum.WriteCaseFile(dir, "regex_src", imports, "Definition cases : list (bool * bytes * bytes) := "+vhlib.CoqListNL(src)+".\n", "check_regex_src cases", len(src))
+		sum.WriteCaseFile(dir, "wild", imports, "Definition cases : list (bool * bytes * bytes * bool) := "+vhlib.CoqListNL(wild)+".\n", "check_wild cases", len(wild))
+	}
+}
+
+func ratF(r *big.Rat) float64 { f, _ := r.Float64(); return f }
+func kindName(k int) string {
+	return []string{"int", "uint", "float", "str", "bool", "absent"}[k]
+}
+func litKind(l Lit) string {
+	if !l.IsNum {
+		if strings.Contains(l.Pat, "*") {
+			return "wildcard"
+		}
+		return "text"
+	}
+	if l.N.IsInt {
+		return "intlit"
+	}
+	return "declit"
+}
+
+// =====================================================================================
+// (B) end to end
+// =====================================================================================
+
+const T0 = uint64(1700000000000)
+
+type QCase struct {
+	Stream string // main or the known class this query is generated for
+	E      *Expr  // search clause
+	W      *Expr  // optional where stage (a single numeric comparison)
+	Start  uint64
+	End    uint64
+	Model  bool // compared with the model in Coq
+	Tag    string
+	Text   string
+	SearchStream string // where-only queries: the stream of the same comparison as a search clause
+}
+
+func (q *QCase) render() string {
+	s := "*"
+	if q.E != nil {
+		s = q.E.spl()
+	}
+	if q.W != nil {
+		s += " | where " + q.W.Col + q.W.Op + q.W.L.N.Text
+	}
+	return s
+}
+
+type Dataset struct {
+	Events []*Event
+	Blocks [][]int // event indices per flushed batch
+	Rotate bool
+	Sparse bool
+}
+
+func mkDataset(r *vhlib.Rng, sparse bool, twoBlocks bool) *Dataset {
+	ds := &Dataset{Sparse: sparse, Rotate: twoBlocks}
+	id := 0
+	add := func(f map[string]Val) *Event {
+		ev := &Event{ID: id, TS: T0 + uint64(id)*1000, F: f}
+		id++
+		ds.Events = append(ds.Events, ev)
+		return ev
+	}
+	nBlocks := 1
+	if twoBlocks {
+		nBlocks = 2
+	}
+	per := 22
+	for b := 0; b < nBlocks; b++ {
+		start := len(ds.Events)
+		// two sentinel events per block: every column present, numeric extremes (the block's
+		// range index then never excludes a literal of the right kind)
+		add(map[string]Val{"ci": vInt("-9223372036854775808"), "cf": vFloat("-1000000000000000.0"), "cm": vFloat("-1000000.5"),
+			"cs": vStr("sentinel low"), "cns": vStr("-3"), "cb": vBool(false), "cx": vStr("zq text")})
+		add(map[string]Val{"ci": vInt("9223372036854775807"), "cf": vFloat("1000000000000000.0"), "cm": vFloat("1000000.5"),
+			"cs": vStr("sentinel high"), "cns": vStr("12"), "cb": vBool(true), "cx": vInt("7")})
+		for i := 0; i < per; i++ {
+			f := map[string]Val{}
+			put := func(col string, v Val) {
+				if sparse && r.Chance(25) {
+					return
+				}
+				f[col] = v
+			}
+			put("ci", vInt(intColTexts[(i+b*5)%len(intColTexts)]))
+			put("cf", vFloat(floatColTexts[(i+b*3)%len(floatColTexts)]))
+			mt := mixColTexts[(i+b*2)%len(mixColTexts)]
+			if strings.Contains(mt, ".") {
+				put("cm", vFloat(mt))
+			} else {
+				put("cm", vInt(mt))
+			}
+			put("cs", vStr(textVals[(i+b*4)%len(textVals)]))
+			put("cns", vStr(numStrVals[(i+b)%len(numStrVals)]))
+			put("cb", vBool((i+b)%2 == 0))
+			switch (i + b) % 4 {
+			case 0:
+				put("cx", vInt(strconv.Itoa(i%9)))
+			case 1:
+				put("cx", vStr("zq"+strconv.Itoa(i)))
+			case 2:
+				put("cx", vFloat(strconv.Itoa(i)+".5"))
+			case 3:
+				put("cx", vStr(strconv.Itoa(i%9)))
+			}
+			add(f)
+		}
+		idx := []int{}
+		for k := start; k < len(ds.Events); k++ {
+			idx = append(idx, k)
+		}
+		ds.Blocks = append(ds.Blocks, idx)
+	}
+	// stored representation after consolidateColumnTypes: a column that has text and numbers
+	// in one block is turned into numbers when every text value parses, into text otherwise
+	for _, blk := range ds.Blocks {
+		for col := range colNum {
+			hasStr, hasNum, allParse := false, false, true
+			for _, k := range blk {
+				v, ok := ds.Events[k].F[col]
+				if !ok {
+					continue
+				}
+				switch v.K {
+				case kStr:
+					hasStr = true
+					if _, err := strconv.ParseInt(v.S, 10, 64); err != nil {
+						if _, err2 := strconv.ParseFloat(v.S, 64); err2 != nil {
+							allParse = false
+						}
+					}
+				case kInt, kFloat:
+					hasNum = true
+				case kBool:
+					allParse = false
+				}
+			}
+			for _, k := range blk {
+				ev := ds.Events[k]
+				if ev.St == nil {
+					ev.St = map[string]Val{}
+				}
+				v, ok := ev.F[col]
+				if !ok {
+					continue
+				}
+				if hasStr && hasNum {
+					if allParse {
+						if v.K == kStr {
+							if _, err := strconv.ParseInt(v.S, 10, 64); err == nil {
+								v = vInt(v.S)
+							} else {
+								v = vFloat(v.S)
+							}
+						}
+					} else {
+						switch v.K {
+						case kInt:
+							v = vStr(v.R.Num().String())
+						case kFloat:
+							v = vStr(strconv.FormatFloat(ratF(v.R), 'f', -1, 64))
+						case kBool:
+							v = vStr(strconv.FormatBool(v.B))
+						}
+					}
+				}
+				ev.St[col] = v
+			}
+		}
+	}
+	return ds
+}
+
+func (ds *Dataset) coqEvents() string {
+	var items []string
+	for _, ev := range ds.Events {
+		var fs []string
+		for _, col := range []string{"ci", "cf", "cm", "cs", "cns", "cb", "cx"} {
+			if v, ok := ev.St[col]; ok {
+				fs = append(fs, fmt.Sprintf("(%d%%N, %s)", colNum[col], v.coq()))
+			}
+		}
+		items = append(items, fmt.Sprintf("mkEv %d%%N %d %s", ev.ID, ev.TS, vhlib.CoqList(fs)))
+	}
+	return vhlib.CoqListNL(items)
+}
+
+func (ds *Dataset) colVals(col string) []Val {
+	var out []Val
+	for _, ev := range ds.Events {
+		if v, ok := ev.F[col]; ok {
+			out = append(out, v)
+		} else {
+			out = append(out, vAbsent)
+		}
+	}
+	return out
+}
+
+var two53 = new(big.Rat).SetInt(new(big.Int).Lsh(big.NewInt(1), 53))
+var i64min = ratOfText("-9223372036854775808")
+var i64max = ratOfText("9223372036854775807")
+
+func absRat(r *big.Rat) *big.Rat { return new(big.Rat).Abs(r) }
+
+// which stream a single comparison on this dataset belongs to ("main" = the code is claimed to follow the text)
+func classify(ds *Dataset, col, op string, l Lit, negated bool) string {
+	vals := ds.colVals(col)
+	effOp := op
+	if negated {
+		effOp = map[string]string{"=": "!=", "!=": "=", "<": ">=", ">=": "<", ">": "<=", "<=": ">"}[op]
+	}
+	hasAbsent, hasInt, hasFloat, hasStr, hasBool := false, false, false, false, false
+	for _, v := range vals {
+		switch v.K {
+		case kAbsent:
+			hasAbsent = true
+		case kInt:
+			hasInt = true
+		case kFloat:
+			hasFloat = true
+		case kStr:
+			hasStr = true
+		case kBool:
+			hasBool = true
+		}
+	}
+	if l.IsNum && l.N.IsInt && (hasFloat || col == "cx") && new(big.Rat).SetFloat64(ratF(l.N.R)).Cmp(l.N.R) != 0 {
+		return "skip" // float64 rounding of an integer literal against float values: outside the exact-rational model
+	}
+	if col == "cx" {
+		return "number_in_mixed_type_column"
+	}
+	if negated || effOp == "!=" {
+		mismatch := hasAbsent || hasBool || (l.IsNum && hasStr) || (!l.IsNum && (hasInt || hasFloat))
+		if mismatch {
+			return "negation_on_absent_or_mismatched_field"
+		}
+	}
+	if l.IsNum && (hasInt || hasFloat) {
+		n := l.N
+		if hasInt {
+			if n.R.Cmp(i64min) < 0 || n.R.Cmp(i64max) > 0 || (!n.IsInt && !n.Dot && n.Text[0] != '+') {
+				return "integer_literal_outside_int64"
+			}
+			if n.Dot {
+				return "int_column_vs_decimal_literal"
+			}
+			if !n.IsInt && !n.R.IsInt() {
+				return "int_column_vs_decimal_literal"
+			}
+		}
+		if hasFloat {
+			if n.IsInt && new(big.Rat).SetFloat64(ratF(n.R)).Cmp(n.R) != 0 {
+				return "skip" // float64 rounding of the literal: outside the exact-rational model
+			}
+			if effOp == "=" || effOp == "!=" {
+				tol := big.NewRat(1, 10000)
+				for _, v := range vals {
+					if v.K == kFloat {
+						d := absRat(new(big.Rat).Sub(v.R, n.R))
+						if d.Sign() != 0 && d.Cmp(tol) < 0 {
+							return "float_equality_tolerance"
+						}
+					}
+				}
+			}
+		}
+	}
+	return "main"
+}
+
+// where stage: integers above 2^53 go through float64 (not modelled); `= 0` / `!= 0` against a
+// value that is not an int64 compares "0" with "0" (known defect)
+func whereClass(ds *Dataset, col, op string, l Lit) string {
+	if absRat(l.N.R).Cmp(two53) > 0 {
+		return "where_int_above_2p53"
+	}
+	nonInt := false
+	for _, v := range ds.colVals(col) {
+		if v.K == kInt && absRat(v.R).Cmp(two53) > 0 {
+			return "where_int_above_2p53"
+		}
+		if v.K == kFloat && !v.R.IsInt() {
+			nonInt = true
+		}
+	}
+	if nonInt && l.N.R.Sign() == 0 && (op == "=" || op == "!=") {
+		return "where_noninteger_equals_zero"
+	}
+	return "main"
+}
+
+// free text: the block bloom holds whole values and their space-separated words (both cases);
+// a phrase that is only part of a value, and a negated word that no event of a block
+// contains, make the block be skipped (known defects, pruning is C03's model)
+func termClass(ds *Dataset, w string, neg bool) string {
+	lw := lowerASCII(w)
+	multi := strings.Contains(lw, " ")
+	for _, blk := range ds.Blocks {
+		hasTok, matches := false, false
+		for _, k := range blk {
+			for _, v := range ds.Events[k].F {
+				if v.K != kStr {
+					continue
+				}
+				lv := lowerASCII(v.S)
+				if lv == lw {
+					hasTok = true
+				}
+				if !multi {
+					for _, t := range strings.Split(lv, " ") {
+						if t == lw {
+							hasTok = true
+						}
+					}
+				}
+				if wordOccurs(w, v.S) {
+					matches = true
+				}
+			}
+		}
+		if !neg && matches && !hasTok {
+			return "phrase_inside_value_pruned"
+		}
+		if neg && !hasTok {
+			return "negated_term_not_in_block"
+		}
+	}
+	return "main"
+}
+
+func modelable(stream, col string) bool {
+	switch stream {
+	case "integer_literal_outside_int64", "phrase_inside_value_pruned", "negated_term_not_in_block", "where_int_above_2p53", "skip":
+		return false
+	case "int_column_vs_decimal_literal":
+		return col == "cm"
+	}
+	return true
+}
+
+func exprModelable(ds *Dataset, e *Expr, neg bool) bool {
+	switch e.Kind {
+	case "cmp":
+		if e.Col == "ci" && e.L.IsNum {
+			// integer-typed range index: a literal that strconv.ParseInt rejects makes the block be skipped (C03's model)
+			n := e.L.N
+			if n.Dot || (!n.IsInt && n.Text[0] != '+') || n.R.Cmp(i64min) < 0 || n.R.Cmp(i64max) > 0 {
+				return false
+			}
+		}
+		return modelable(classify(ds, e.Col, e.Op, e.L, neg), e.Col)
+	case "term":
+		return modelable(termClass(ds, e.Word, neg), "")
+	case "not":
+		return exprModelable(ds, e.A, !neg)
+	default:
+		return exprModelable(ds, e.A, neg) && exprModelable(ds, e.B, neg)
+	}
+}
+
+func exprClass(ds *Dataset, e *Expr, neg bool) string {
+	switch e.Kind {
+	case "cmp":
+		return classify(ds, e.Col, e.Op, e.L, neg)
+	case "term":
+		return termClass(ds, e.Word, neg)
+	case "not":
+		return exprClass(ds, e.A, !neg)
+	default:
+		a, b := exprClass(ds, e.A, neg), exprClass(ds, e.B, neg)
+		if a != "main" {
+			return a
+		}
+		return b
+	}
+}
+
+func genQueries(r *vhlib.Rng, ds *Dataset, thorough bool) []*QCase {
+	var qs []*QCase
+	lo, hi := T0-1000, T0+1000000
+	add := func(q *QCase) {
+		if q.Stream == "skip" {
+			return
+		}
+		if q.Start == 0 {
+			q.Start, q.End = lo, hi
+		}
+		if q.E != nil && !exprModelable(ds, q.E, false) {
+			q.Model = false
+		}
+		q.Text = q.render()
+		qs = append(qs, q)
+	}
+	// 1. the numeric matrix: column x literal x operator, search clause and where stage
+	for _, col := range []string{"ci", "cf", "cm"} {
+		for _, t := range numLitTexts {
+			l := numL(t)
+			for _, op := range ops {
+				cl := classify(ds, col, op, l, false)
+				add(&QCase{Stream: cl, E: cmpE(col, op, l), Model: true, Tag: "num/" + col})
+				// `| where`: the parser has no leading '+' / no "-0"
+				if t[0] == '+' || t == "-0" || cl == "skip" {
+					continue
+				}
+				wc := whereClass(ds, col, op, l)
+				// the where stage itself is expected to compare by value also where the search clause does not
+				add(&QCase{Stream: wc, W: cmpE(col, op, l), Model: wc != "where_int_above_2p53", Tag: "where/" + col, SearchStream: cl})
+			}
+		}
+	}
+	// 2. number literal against text columns, text literal against number columns
+	for _, col := range []string{"cs", "cns", "cx"} {
+		for _, t := range []string{"7", "007", "2.5", "-3", "12", "0"} {
+			for _, op := range ops {
+				l := numL(t)
+				add(&QCase{Stream: classify(ds, col, op, l, false), E: cmpE(col, op, l), Model: true, Tag: "num_vs_text/" + col})
+			}
+		}
+	}
+	for _, col := range []string{"ci", "cf"} {
+		for _, p := range []string{"abc", "five"} {
+			for _, op := range []string{"=", "!="} {
+				l := strL(p)
+				add(&QCase{Stream: classify(ds, col, op, l, false), E: cmpE(col, op, l), Model: true, Tag: "text_vs_num/" + col})
+			}
+		}
+	}
+	// 3. text equality / wildcards
+	for _, col := range []string{"cs", "cns", "cx"} {
+		pats := textPats
+		if col != "cs" {
+			pats = []string{"007", "7", "7.0", "7*", "*", "zq*", "abc7", "zq text", "12"}
+		}
+		for _, p := range pats {
+			for _, op := range []string{"=", "!="} {
+				l := strL(p)
+				add(&QCase{Stream: classify(ds, col, op, l, false), E: cmpE(col, op, l), Model: true, Tag: "text/" + col})
+			}
+		}
+	}
+	// 4. free-text words and phrases
+	for _, w := range termWords {
+		e := &Expr{Kind: "term", Word: w}
+		add(&QCase{Stream: termClass(ds, w, false), E: e, Model: true, Tag: "term"})
+		add(&QCase{Stream: termClass(ds, w, true), E: &Expr{Kind: "not", A: e}, Model: true, Tag: "term_not"})
+	}
+	// 5. bool literals (not part of the property's literal list; own stream)
+	for _, b := range []string{"true", "false"} {
+		for _, op := range []string{"=", "!="} {
+			qs = append(qs, &QCase{Stream: "bool_literal_comparison", Start: lo, End: hi, Tag: "bool", Text: "cb" + op + b,
+				E: &Expr{Kind: "boollit", Col: "cb", Op: op, Word: b}})
+		}
+	}
+	// 6. compound expressions over atoms; A, B, A AND B, A OR B, NOT A are all run so that the
+	//    set identities can be checked on the observed results themselves
+	atoms := func() *Expr {
+		switch r.Intn(5) {
+		case 0:
+			return cmpE("ci", vhlib.Pick(r, ops), numL(vhlib.Pick(r, []string{"0", "1", "-1", "2", "3", "7", "100", "-2", "9007199254740992", "007"})))
+		case 1:
+			return cmpE("cf", vhlib.Pick(r, []string{"<", "<=", ">", ">="}), numL(vhlib.Pick(r, []string{"0", "1", "2.5", "-2.5", "0.5", "7.5", "3", "1.00001", "0.00001"})))
+		case 2:
+			return cmpE("cs", vhlib.Pick(r, []string{"=", "!="}), strL(vhlib.Pick(r, textPats)))
+		case 3:
+			return &Expr{Kind: "term", Word: vhlib.Pick(r, termWords)}
+		default:
+			return cmpE("cm", vhlib.Pick(r, ops), numL(vhlib.Pick(r, []string{"0", "2", "3", "-2", "7", "5", "100"})))
+		}
+	}
+	var genE func(d int) *Expr
+	genE = func(d int) *Expr {
+		if d == 0 || r.Chance(35) {
+			return atoms()
+		}
+		switch r.Intn(3) {
+		case 0:
+			return &Expr{Kind: "and", A: genE(d - 1), B: genE(d - 1)}
+		case 1:
+			return &Expr{Kind: "or", A: genE(d - 1), B: genE(d - 1)}
+		default:
+			return &Expr{Kind: "not", A: genE(d - 1)}
+		}
+	}
+	nComp := 40
+	if thorough {
+		nComp = 400
+	}
+	for i := 0; i < nComp; i++ {
+		a, b := genE(2), genE(2)
+		for k, e := range []*Expr{a, b, {Kind: "and", A: a, B: b}, {Kind: "or", A: a, B: b}, {Kind: "not", A: a}} {
+			add(&QCase{Stream: exprClass(ds, e, false), E: e, Model: true, Tag: fmt.Sprintf("compound/%d/%d", i, k)})
+		}
+		// search clause followed by a where stage = conjunction
+		w := cmpE(vhlib.Pick(r, []string{"cf", "cm"}), vhlib.Pick(r, ops), numL(vhlib.Pick(r, []string{"0", "2", "3", "-2", "7", "2.5", "0.5"})))
+		cl := exprClass(ds, a, false)
+		if cl == "main" {
+			add(&QCase{Stream: whereClass(ds, w.Col, w.Op, w.L), E: a, W: w, Model: true, Tag: "search_then_where"})
+		}
+	}
+	// 7. time range boundaries: every event time and its neighbours as start / end
+	tsPool := []uint64{}
+	for _, k := range []int{0, 1, 2, len(ds.Events)/2 - 1, len(ds.Events) / 2, len(ds.Events) - 2, len(ds.Events) - 1} {
+		t := ds.Events[k].TS
+		tsPool = append(tsPool, t-1, t, t+1)
+	}
+	for _, s := range tsPool {
+		for _, e := range tsPool {
+			if s > e || s == 0 {
+				continue
+			}
+			if !thorough && r.Chance(55) {
+				continue
+			}
+			add(&QCase{Stream: "main", Start: s, End: e, Model: true, Tag: "time/all"})
+			add(&QCase{Stream: "main", E: cmpE("ci", ">=", numL("0")), Start: s, End: e, Model: true, Tag: "time/cmp"})
+		}
+	}
+	return qs
+}
+
+var allFails []string
+
+type scenario struct {
+	name string
+	ds   *Dataset
+	qs   []*QCase
+	obs  []QObs
+	err  error
+}
+
+func idsOf(ds *Dataset, pred func(ev *Event) bool, s, e uint64) []int {
+	out := []int{}
+	for _, ev := range ds.Events {
+		if ev.TS >= s && ev.TS <= e && pred(ev) {
+			out = append(out, ev.ID)
+		}
+	}
+	return out
+}
+
+func eqInts(a, b []int) bool {
+	if len(a) != len(b) {
+		return false
+	}
+	for i := range a {
+		if a[i] != b[i] {
+			return false
+		}
+	}
+	return true
+}
+func diffInts(a, b []int) (onlyA, onlyB []int) {
+	m := map[int]bool{}
+	for _, x := range b {
+		m[x] = true
+	}
+	n := map[int]bool{}
+	for _, x := range a {
+		n[x] = true
+		if !m[x] {
+			onlyA = append(onlyA, x)
+		}
+	}
+	for _, x := range b {
+		if !n[x] {
+			onlyB = append(onlyB, x)
+		}
+	}
+	return
+}
+
+func coqIds(ids []int) string {
+	var s []string
+	for _, i := range ids {
+		s = append(s, strconv.Itoa(i)+"%N")
+	}
+	return vhlib.CoqList(s)
+}
+
+func evalScenario(sc *scenario, sum *vhlib.Summary, dir string, imports string) {
+	ds := sc.ds
+	describe := func(q *QCase, want, got []int) map[string]interface{} {
+		miss, extra := diffInts(want, got)
+		evs := []string{}
+		show := append(append([]int{}, miss...), extra...)
+		for i, id := range show {
+			if i >= 4 {
+				break
+			}
+			b, _ := json.Marshal(docOf(ds.Events[id]))
+			evs = append(evs, string(b))
+		}
+		return map[string]interface{}{"scenario": sc.name, "query": q.Text, "start": q.Start, "end": q.End,
+			"expected_ids": want, "returned_ids": got, "missing": miss, "unexpected": extra, "events": evs}
+	}
+	{ // debugging aid: every query with its stream and the observed ids
+		type row struct {
+			Q, Stream, Tag string
+			S, E           uint64
+			Ids            []int
+			Err            string
+		}
+		var rows []row
+		for i, q := range sc.qs {
+			rows = append(rows, row{q.Text, q.Stream, q.Tag, q.Start, q.End, sc.obs[i].Ids, sc.obs[i].Err})
+		}
+		b, _ := json.Marshal(rows)
+		_ = os.WriteFile(filepath.Join(filepath.Dir(dir), "queries_"+sc.name+".json"), b, 0o644)
+	}
+	results := map[string][]int{} // tag -> ids (for the set identities)
+	streams := map[string]string{}
+	var selItems, whereItems []string
+	for i, q := range sc.qs {
+		o := sc.obs[i]
+		sum.Count("stream/" + q.Stream)
+		sum.Count("kind/" + strings.SplitN(q.Tag, "/", 2)[0])
+		if o.Err != "" {
+			if strings.Contains(o.Err, "Error parsing query") || strings.Contains(o.Err, "no match found") {
+				sum.HarnessError(fmt.Sprintf("generated filter does not parse: %q: %s", q.Text, o.Err))
+			} else if q.Stream == "main" {
+				sum.Fail("query_error", q.Text+": "+o.Err, describe(q, nil, nil))
+			} else {
+				sum.Fail(q.Stream, q.Text+": "+o.Err, describe(q, nil, nil))
+			}
+			continue
+		}
+		if q.E != nil && q.E.Kind == "boollit" {
+			want := idsOf(ds, func(ev *Event) bool {
+				v, ok := ev.F["cb"]
+				return ok && v.K == kBool && ((q.E.Op == "=") == (v.B == (q.E.Word == "true")))
+			}, q.Start, q.End)
+			sum.Eval("q/"+sc.name+"/"+q.Text, true)
+			if !eqInts(want, o.Ids) {
+				sum.Fail("bool_literal_comparison", fmt.Sprintf("%s returned %v, expected %v", q.Text, o.Ids, want), describe(q, want, o.Ids))
+			}
+			continue
+		}
+		want := idsOf(ds, func(ev *Event) bool {
+			ok := true
+			if q.E != nil {
+				ok = specEval(q.E, ev)
+			}
+			if ok && q.W != nil {
+				ok = specEval(q.W, ev)
+			}
+			return ok
+		}, q.Start, q.End)
+		sum.Eval("q/"+sc.name+"/"+q.Text+fmt.Sprint(q.Start, q.End), len(want) > 0 && len(want) < len(ds.Events))
+		results[q.Tag] = o.Ids
+		streams[q.Tag] = q.Stream
+		if o.Dup {
+			sum.Fail("filter_false_positive", q.Text+": an event was returned twice", describe(q, want, o.Ids))
+		}
+		if !eqInts(want, o.Ids) {
+			miss, extra := diffInts(want, o.Ids)
+			class := q.Stream
+			if class == "main" {
+				switch {
+				case strings.HasPrefix(q.Tag, "time/"):
+					class = "time_range_boundary"
+				case len(extra) > 0:
+					class = "filter_false_positive"
+				default:
+					class = "filter_false_negative"
+				}
+				if q.W != nil && q.E == nil {
+					class = "where_stage_not_by_value"
+				}
+			}
+			sum.Fail(class, fmt.Sprintf("[%s] %s  range [%d,%d]: missing %v unexpected %v", sc.name, q.Text, q.Start, q.End, miss, extra), describe(q, want, o.Ids))
+			allFails = append(allFails, fmt.Sprintf("%s\t%s\t%s\tmissing %v unexpected %v", class, sc.name, q.Text, miss, extra))
+		}
+		// model comparison
+		if q.Model {
+			tr := fmt.Sprintf("mkTr %d %d", q.Start, q.End)
+			switch {
+			case q.W == nil:
+				e := "all_e" // `*`
+				if q.E != nil {
+					e = q.E.coq()
+				}
+				selItems = append(selItems, fmt.Sprintf("(%s, %s, %s)", e, tr, coqIds(o.Ids)))
+			case !q.W.L.N.Inexact:
+				e := "all_e"
+				if q.E != nil {
+					e = q.E.coq()
+				}
+				whereItems = append(whereItems, fmt.Sprintf("(%s, (%d%%N, %s, %s), %s, %s)", e, colNum[q.W.Col], opCoq[q.W.Op], q.W.L.N.coq(), tr, coqIds(o.Ids)))
+			}
+		}
+	}
+	// search clause vs where stage on the same comparison (main cells only)
+	for i := 0; i+1 < len(sc.qs); i++ {
+		a, b := sc.qs[i], sc.qs[i+1]
+		if a.E != nil && a.W == nil && b.E == nil && b.W != nil && a.E.Kind == "cmp" && a.E.Col == b.W.Col && a.E.Op == b.W.Op && a.E.L.N.Text == b.W.L.N.Text &&
+			sc.obs[i].Err == "" && sc.obs[i+1].Err == "" {
+			sum.Count("pairs/search_vs_where")
+			if !eqInts(sc.obs[i].Ids, sc.obs[i+1].Ids) {
+				class := "search_where_disagree"
+				if a.Stream != "main" {
+					class = a.Stream
+				} else if b.Stream != "main" {
+					class = b.Stream
+				}
+				sum.Count("pairs/search_vs_where_disagree/" + class)
+				miss, extra := diffInts(sc.obs[i+1].Ids, sc.obs[i].Ids)
+				sum.Fail(class, fmt.Sprintf("[%s] search `%s` and `%s` disagree: search lacks %v, has extra %v", sc.name, a.Text, b.Text, miss, extra),
+					map[string]interface{}{"scenario": sc.name, "search": a.Text, "where": b.Text, "search_ids": sc.obs[i].Ids, "where_ids": sc.obs[i+1].Ids})
+			}
+		}
+	}
+	// set identities on the observed results of the compound group
+	for i := 0; ; i++ {
+		a, ok := results[fmt.Sprintf("compound/%d/0", i)]
+		if !ok {
+			if i > 1000 {
+				break
+			}
+			if _, any := results[fmt.Sprintf("compound/%d/2", i)]; !any && i > 0 {
+				break
+			}
+			continue
+		}
+		b, okb := results[fmt.Sprintf("compound/%d/1", i)]
+		and, ok2 := results[fmt.Sprintf("compound/%d/2", i)]
+		or, ok3 := results[fmt.Sprintf("compound/%d/3", i)]
+		if !okb {
+			continue
+		}
+		idClass := func(def string) string { // a known-class operand: the identity is reported under that class
+			for k := 0; k < 4; k++ {
+				if st := streams[fmt.Sprintf("compound/%d/%d", i, k)]; st != "" && st != "main" {
+					return st
+				}
+			}
+			return def
+		}
+		inA := map[int]bool{}
+		for _, x := range a {
+			inA[x] = true
+		}
+		inter, union := []int{}, append([]int{}, a...)
+		for _, x := range b {
+			if inA[x] {
+				inter = append(inter, x)
+			} else {
+				union = append(union, x)
+			}
+		}
+		sort.Ints(union)
+		sum.Count("pairs/and_or_identities")
+		if ok2 && !eqInts(and, inter) {
+			sum.Fail(idClass("and_not_intersection"), fmt.Sprintf("[%s] compound %d: A AND B returned %v, A∩B = %v", sc.name, i, and, inter), map[string]interface{}{"scenario": sc.name, "A": a, "B": b, "and": and})
+		}
+		if ok3 && !eqInts(or, union) {
+			sum.Fail(idClass("or_not_union"), fmt.Sprintf("[%s] compound %d: A OR B returned %v, A∪B = %v", sc.name, i, or, union), map[string]interface{}{"scenario": sc.name, "A": a, "B": b, "or": or})
+		}
+	}
+	// Coq case files
+	defs := "Definition all_e : expr := EOr (EAtom (ATerm [] false)) (EAtom (ATerm [] true)).\nDefinition evs : list event := " + ds.coqEvents() + ".\n"
+	for k := 0; k*400 < len(selItems); k++ {
+		hi := (k + 1) * 400
+		if hi > len(selItems) {
+			hi = len(selItems)
+		}
+		part := selItems[k*400 : hi]
+		sum.WriteCaseFile(dir, fmt.Sprintf("sel_%s_%02d", sc.name, k), imports,
+			defs+"Definition qs : list (expr * trange * list N) := "+vhlib.CoqListNL(part)+".\n",
+			"check_select evs qs ++ map (fun i => (1000 + i)%nat) (check_guarded evs qs)", len(part))
+	}
+	for k := 0; k*400 < len(whereItems); k++ {
+		hi := (k + 1) * 400
+		if hi > len(whereItems) {
+			hi = len(whereItems)
+		}
+		part := whereItems[k*400 : hi]
+		sum.WriteCaseFile(dir, fmt.Sprintf("where_%s_%02d", sc.name, k), imports,
+			defs+"Definition qs : list (expr * (N * cop * numlit) * trange * list N) := "+vhlib.CoqListNL(part)+".\n",
+			"check_where evs qs", len(part))
+	}
+}
+
+func docOf(ev *Event) map[string]interface{} {
+	m := map[string]interface{}{"id": ev.ID, "timestamp": ev.TS}
+	for c, v := range ev.F {
+		m[c] = json.RawMessage(v.JSON)
+	}
+	return m
+}
+
+func docText(ev *Event) string {
+	var sb strings.Builder
+	fmt.Fprintf(&sb, "{\"id\":%d,\"timestamp\":%d", ev.ID, ev.TS)
+	for _, c := range []string{"ci", "cf", "cm", "cs", "cns", "cb", "cx"} {
+		if v, ok := ev.F[c]; ok {
+			fmt.Fprintf(&sb, ",%q:%s", c, v.JSON)
+		}
+	}
+	sb.WriteString("}")
+	return sb.String()
+}
+
 func main() {
 	if len(os.Args) >= 5 && os.Args[1] == "worker" {
 		workerMain(os.Args[2], os.Args[3], os.Args[4])
 		return
 	}
+	cfg := vhlib.ParseFlags()
+	log.SetLevel(log.PanicLevel)
+	sum := vhlib.NewSummary("distinct (stored value, literal, operator, case flag) tuples driven directly through the comparison code + distinct (dataset, query text, time range) end-to-end queries whose expected result is neither empty nor everything")
+	directDrive(cfg, sum)
+
+	rng := vhlib.NewRng(cfg.Seed)
+	var scs []*scenario
+	layouts := []struct {
+		name          string
+		sparse, twoBl bool
+	}{{"full1", false, false}, {"sparse2", true, true}}
+	if cfg.Thorough() {
+		layouts = append(layouts, struct {
+			name          string
+			sparse, twoBl bool
+		}{"full2", false, true}, struct {
+			name          string
+			sparse, twoBl bool
+		}{"sparse1", true, false})
+		for k := 0; k < 6; k++ {
+			layouts = append(layouts, struct {
+				name          string
+				sparse, twoBl bool
+			}{fmt.Sprintf("rnd%d", k), k%2 == 0, k%3 != 0})
+		}
+	}
+	for _, l := range layouts {
+		r := rng.Fork()
+		ds := mkDataset(r, l.sparse, l.twoBl)
+		scs = append(scs, &scenario{name: l.name, ds: ds, qs: genQueries(r, ds, cfg.Thorough())})
+	}
+	// each scenario's queries are split over several workers (fresh store each; same data)
+	type job struct {
+		sc     *scenario
+		lo, hi int
+	}
+	var jobs []job
+	for _, sc := range scs {
+		sc.obs = make([]QObs, len(sc.qs))
+		const chunk = 450
+		for lo := 0; lo < len(sc.qs); lo += chunk {
+			hi := lo + chunk
+			if hi > len(sc.qs) {
+				hi = len(sc.qs)
+			}
+			jobs = append(jobs, job{sc, lo, hi})
+		}
+	}
+	var wg sync.WaitGroup
+	var mu sync.Mutex
+	sem := make(chan struct{}, 8)
+	for ji, j := range jobs {
+		wg.Add(1)
+		go func(ji int, j job) {
+			defer wg.Done()
+			sem <- struct{}{}
+			defer func() { <-sem }()
+			s := &Script{Rotate: j.sc.ds.Rotate}
+			for _, blk := range j.sc.ds.Blocks {
+				var docs []string
+				for _, k := range blk {
+					docs = append(docs, docText(j.sc.ds.Events[k]))
+				}
+				s.Batches = append(s.Batches, docs)
+			}
+			for _, q := range j.sc.qs[j.lo:j.hi] {
+				s.Queries = append(s.Queries, Query{Text: q.Text, Start: q.Start, End: q.End})
+			}
+			obs, err := runScenario(filepath.Join(cfg.Out, fmt.Sprintf("w%03d", ji)), s)
+			mu.Lock()
+			defer mu.Unlock()
+			if err != nil {
+				// re-run alone once before believing it
+				obs, err = runScenario(filepath.Join(cfg.Out, fmt.Sprintf("w%03d_retry", ji)), s)
+			}
+			if err != nil {
+				j.sc.err = err
+				return
+			}
+			copy(j.sc.obs[j.lo:j.hi], obs)
+		}(ji, j)
+	}
+	wg.Wait()
+	dir := filepath.Join(cfg.Out, "cases")
+	imports := "From SigM Require Import Base Dte Filter FilterCheck.\nFrom Coq Require Import QArith.\nOpen Scope Z_scope.\n"
+	for _, sc := range scs {
+		if sc.err != nil {
+			sum.HarnessError("scenario " + sc.name + ": " + sc.err.Error())
+			continue
+		}
+		evalScenario(sc, sum, dir, imports)
+		if len(sc.qs) > 3 {
+			sum.Sample(map[string]interface{}{"scenario": sc.name, "events": len(sc.ds.Events), "blocks": len(sc.ds.Blocks), "queries": len(sc.qs),
+				"example_event": docText(sc.ds.Events[5]), "example_queries": []string{sc.qs[0].Text, sc.qs[len(sc.qs)/2].Text, sc.qs[len(sc.qs)-1].Text}})
+		}
+	}
+	sum.Notes = append(sum.Notes,
+		"numbers are exact rationals in model and oracle; literals whose float64 value differs from their text (integers beyond 2^53 against float values) are skipped and counted",
+		"known-defect classes are generated in their own streams; the main stream contains only cells inside cmp_guard/expr_guard")
+	_ = os.WriteFile(filepath.Join(cfg.Out, "all_failures.txt"), []byte(strings.Join(allFails, "\n")+"\n"), 0o644)
+	sum.Write(cfg.Out)
 }
